@@ -110,6 +110,9 @@ def build(desc):
         actions.insert(0, {"m": mf.market_id, "at": 0, "op": "place", "ref": "fml", "sel": list(keep[0]), "side": "LAY", "otype": "MOC", "liability": 10.0})
     case["markets"] = [{"id": mf.market_id, "text": mf.text()} for mf in mfs]
     case["strategies"] = [{"name": "S0", "actions": actions}]
+    if desc["idx"] % 4 == 2:
+        # the strategy rebuilds market.context for its own bookkeeping; some orders are filed in the blotter without being sent
+        simgen.usage_variants(case, snaps, simgen.mk_rng(desc["seed"], desc["idx"], 909), p_clear_context=0.8, p_execute_false=0.2)
     return case, snaps
 
 
